@@ -564,6 +564,28 @@ def batch(arg):
     return part
 
 
+def suite_under_monitor(ctx):
+    """Thorough tier: the repository's own suite with the E4 monitor on."""
+    from vf import suite
+    res = suite.run_suite("c16")
+    if res is None:
+        ctx.inconclusive("suite-under-monitor run did not complete")
+        return
+    for k, v in res["events"].items():
+        ctx.count("suite:" + k, v)
+    ctx.extra["suite_summary"] = res["summary"]
+    for f in res["firings"]:
+        if f["property"] != "C16":
+            continue
+        ctx.violation({"kind": "suite:" + f["kind"],
+                       "mechanism": f.get("mechanism"),
+                       "what": "%s [%s]" % (f["what"], f["test"]),
+                       "test": f["test"],
+                       "dedupe": (f["kind"], f.get("op"),
+                                  f.get("transformation"),
+                                  f.get("mechanism"))})
+
+
 def main(ctx):
     ctx.rule = ("histories of public SymbolTable operations (%s) over three "
                 "nested real scopes (Container > Routine > loop body) plus an "
@@ -578,6 +600,8 @@ def main(ctx):
     for res in ctx.pmap("vf.checks.c16", "batch", jobs, timeout=3000):
         if res:
             ctx.merge(res)
+    if not ctx.quick:
+        suite_under_monitor(ctx)
     if ctx.counters.get("ops", 0) == 0:
         ctx.inconclusive("no operation executed")
     ctx.assumptions += [
